@@ -3,7 +3,11 @@
 [E] algebraic: sqrt, cbrt, root(x, n), hypot, x**(1/n): the returned r satisfies
 (r (1 - eps))^n <= x <= (r (1 + eps))^n with eps = 2^(4-p), in exact integer / dyadic arithmetic
 (complex square roots through r^2 = z).
-[R] transcendental: SameReal over precisions {p, 2p+40} for every listed function on real and
+[E] transcendental (RealFun): exp, log, sin, cos, atan at real dyadic arguments are compared with
+rigorous enclosures computed by the SPECIFICATION itself (fixed-point series on limb integers with
+explicit remainder bounds, argument reduction by the spec's own pi and ln 2): relative error below
+2^(4-p); an enclosure too wide for the comparison gives "undecided", never a violation.
+[R] the remaining functions and complex arguments: SameReal over precisions {p, 2p+40} for every listed function on real and
 complex arguments, with argument generators aimed at the cancellation sites (near multiples of pi/2,
 near 1 for log, near +-1 for atanh / acos, huge arguments) -- tolerance 2^(4-p); exact identities
 between outputs: sin^2 + cos^2 = 1, cosh^2 - sinh^2 = 1, exp(x) exp(-x) = 1, tan cos = sin,
@@ -49,8 +53,43 @@ TABLE = [(n, sf.A(R1), sf.F1(n)) for n in ["exp", "sin", "cos", "tan", "sinh", "
 ]
 
 
+def real_events(chk, mpmath, rng, n):
+    """[E] exp, log, sin, cos, atan at real dyadic arguments against the spec's own series enclosures (RealFun)"""
+    from .. import enc
+    mp = mpmath.mp
+    for i in range(n):
+        p = rng.choice([10, 20, 53, 53, 64, 100, 150, rng.randint(10, 300)])
+        f = rng.choice(["exp", "log", "sin", "cos", "atan"])
+        mp.prec = p
+        c = rng.random()
+        if f == "log":
+            x = sf.posq(rng, 2000, dens=(1, 3, 7, 64)) if c < 0.7 else 1 + Fr(rng.randint(-9, 9) or 1, 2 ** rng.randint(5, p))
+        elif f in ("sin", "cos") and c < 0.3:
+            x = near_pi2(rng)
+        elif c < 0.8:
+            x = sf.rq(rng, -40, 40, dens=(1, 3, 7, 64, 2 ** 20))
+        else:
+            x = Fr(rng.randint(-2 ** 12, 2 ** 12), 2 ** rng.randint(0, 60))
+        X = sf.q2m(mp, x)
+        if X == 0 or (f == "exp" and abs(X) > 2 ** 18):
+            continue
+        try:
+            y = getattr(mp, f)(X)
+        except (ValueError, ZeroDivisionError):
+            yield None; continue
+        if not oblcommon.fin(y) or hasattr(y, "_mpc_") or y == 0:
+            yield None; continue
+        xt, yt = X._mpf_, y._mpf_
+        # working scale: p bits below the result's leading bit, plus the bits of the argument (argument reduction) and slack
+        w = p + 40 + max(0, xt[2] + xt[3]) + max(0, -(yt[2] + yt[3]))
+        yield enc.event(0, "real", [enc.f(xt)], p, "n", enc.f(yt), pb=0, x={"f": f, "w": w, "tol": 4}), \
+            {"key": "series-enclosure/" + f, "f": f, "x": str(x), "p": p, "what": "%s(x) is farther than 2^(4-p) (relative) from the value enclosed by the spec's own series" % f}
+
+
 def gen(chk, mpmath, rng):
     mp = mpmath.mp
+    for item in real_events(chk, mpmath, rng, chk.pick(400, 20000)):
+        yield item
     for item in sf.samereal(chk, mpmath, rng, TABLE, 4, chk.pick(450, 20000), PROP):
         yield item
     for i in range(chk.pick(350, 12000)):
@@ -134,7 +173,8 @@ def gen(chk, mpmath, rng):
 def main():
     oblcommon.run(PROP, LEVEL, gen,
                   "seeded rational / complex arguments incl. cancellation sites (near k*pi/2, near 1, huge); algebraic functions judged exactly; distinct = (function or identity, arguments, precision)",
-                  ["[R] checks are necessary conditions only: an error identical at both precisions is invisible to them",
+                  ["remainder bounds of the series in spec/RealFun.tla are trusted mathematics",
+                   "[R] checks (functions other than exp/log/sin/cos/atan on the reals) are necessary conditions only: an error identical at both precisions is invisible to them",
                    "identities are granted 2 extra bits over the per-function bound",
                    "power with huge exponents and cospi/sinpi with huge imaginary parts, where the unchanged library is known not to meet 2^(4-p), are not sampled"])
 
